@@ -29,6 +29,8 @@ RULES_DOC["R8"] = "= C01.R5: a unit cancelled in a yield-family callback is not 
 RULES_DOC["R9"] = "= C02.R5: every switch primitive release-stores RUNNING into the unit it switches to before the switch (a unit never executes while its state says READY)"
 RULES_DOC["X4"] = common.X4_DOC
 RULES_DOC["R10"] = "request bits: ABTI_thread_set_request ORs the given bits in, ABTI_thread_unset_request ANDs with their complement (~req): clearing one request never clears another that is still pending (a migration that completes does not erase a cancellation)"
+RULES_DOC["R13"] = "= C13.R2: serving a migration request clears exactly the MIGRATE bit (ABTI_thread_unset_request), once: a cancel or join request posted in the meantime stays pending"
+RULES_DOC["R12"] = "request words are sets of bits: every branch on ABTI_thread::request / ABTI_sched::request tests bits with & -- never compares the whole word with one request constant (a pending join or cancel would hide a migration request, and vice versa)"
 RULES_DOC["R11"] = "= C03.R4: a joiner that is not a ULT (external thread, tasklet) is released through its futex; exit and resume_joiner agree on how such a joiner is recognised"
 RULES_DOC.update({
     "R1": "role-based census of every store to ABTI_thread::state",
@@ -341,10 +343,35 @@ def rule_R10(P, rep):
         rep.need(len(calls) == 1, "%s: %d %s calls" % (fn, len(calls), wrapper))
         nd = F.nodes[calls[0]]
         got = canon.expr(F, nd["a"][1])
-        fo = F.field_of(nd["a"][0])
+        fo = F.field_of(seq._through_pointer_temp(F, nd["a"][0]))
         rep.ob("R10", "%s applies %s to ABTI_thread::request with %s" % (fn, wrapper, want.format(p=reqp)),
                fo == ("ABTI_thread", "request") and got == want.format(p=reqp),
                "%s(%s, %s)" % (nd["fn"], F.render(nd["a"][0]), got), loc=F.loc(calls[0]), site="%s/mask" % fn)
+
+
+def rule_R12(P, rep):
+    """Request words hold several independent bits (a joiner sets REQ_JOIN while a migration is pending): every branch on
+    one tests bits with `&`; comparing the whole word with one request constant silently drops the request whenever a
+    second one is pending."""
+    from abtverif import ctrldep
+    n = 0
+    for F in sorted(P.functions.values(), key=lambda f: (f.file, f.line)):
+        for bid, B in sorted(F.blocks.items()):
+            if B.tc is None or B.tk == "SwitchStmt":
+                continue
+            for leaf in ctrldep._operands(F, B.tc):
+                lab, _flip = canon.cond(F, leaf)
+                m = re.search(r"(ABTI_thread|ABTI_sched)::request\)*", lab)
+                if not m:
+                    continue
+                rest = lab[m.end():].strip()
+                n += 1
+                eq = re.match(r"^(==|!=) (\d+)$", rest)
+                bad = bool(eq) and int(eq.group(2)) != 0
+                rep.ob("R12", "%s tests the request word %s::request bitwise (`%s`)" % (F.name, m.group(1), lab[:120]), not bad,
+                       "the whole word is compared with one request constant: the test fails as soon as another request "
+                       "(join, cancel, ...) is pending too", loc=F.loc(leaf), site="%s/request-test/%s" % (F.name, rest[:20]))
+    rep.need(n >= 4, "only %d branches on a request word" % n)
 
 
 def run(P, rep, tier):
@@ -364,3 +391,6 @@ def run(P, rep, tier):
     common.borrow(rep, P, C02.rule_R4_R5, "R9", only=("R5",))
     rule_R10(P, rep)
     common.borrow(rep, P, C03.rule_R3_R4, "R11", only=("R4",))
+    rule_R12(P, rep)
+    from . import C13
+    common.borrow(rep, P, C13.rule_R2, "R13")
